@@ -283,6 +283,8 @@ def analyze_method(job, sdl, schema, pkg: Package, rt: PkgRuntime, mi, modes, kn
                 block = z3.Not(z3.And(par.live, par.rt == vi, ent[0]))
                 sig["key_is_typename"] = pb["path"][-1] == "__typename"
                 sig["selected_via"] = ez.via_class(ctx, ent[2])
+                if len([e for e in (par.entries or []) if e[1].selection_set is not None]) > 1 and par.parent is not None:
+                    sig["parent_key_selected_repeatedly"] = True
             elif pb["kind"] == "dump_extra_key":
                 sig["value"] = pb.get("value")
                 block = z3.Not(z3.And(*[v == m.eval(v, model_completion=True) for v in ctx.dirvars.values()])) if ctx.dirvars else z3.BoolVal(False)
@@ -384,6 +386,10 @@ def analyze_method(job, sdl, schema, pkg: Package, rt: PkgRuntime, mi, modes, kn
                 sig = {"q": "strict", "corruption": h["cls"], "expect": type_shape(n.expect) if n.expect is not None else None,
                        "named": str(get_named_type(n.expect)) if n.expect is not None else None, "selected_via": ez.via_class(ctx, n)}
                 sig["leaf"] = leaf_class(n.expect)
+                if n.mixed_cond:
+                    sig["mixed_conditionality"] = True
+                if n.parent is not None and len([e for e in (n.parent.entries or []) if e[1].selection_set is not None]) > 1 and n.parent.parent is not None:
+                    sig["parent_key_selected_repeatedly"] = True
                 if h["cls"] == "kind":
                     tag = m.eval(n.tag, model_completion=True).as_long()
                     sig["value_kind"] = ez.tag_kind(ctx, tag)
